@@ -27,6 +27,7 @@ RULE = (
 RULE += '; template: the least recently used key still in flight when the cache overflows'
 RULE += '; template: an expired key computed anew beside a newer in-flight key in a full cache'
 RULE += '; template: an evicted invocation finishes while the displacing key is in flight'
+RULE += '; invocations may return an exception instance'
 LEVEL_TEXT = (
     "Exhaustive single-fault injection per generated program: every caller is cancelled at every loop iteration of the "
     "program's deterministic schedule; each run is judged by history predicates (sharing obligation, outcome of the "
@@ -49,6 +50,14 @@ class Val:
     __slots__ = ("inv",)
 
     def __init__(self, inv):
+        self.inv = inv
+
+
+class RetExc(Exception):
+    """an exception INSTANCE that an invocation RETURNS as its value (a validation report, a recorded failure)"""
+
+    def __init__(self, inv):
+        super().__init__(inv)
         self.inv = inv
 
 
@@ -89,6 +98,8 @@ def execute(case, inject):
             rec["finished"] = loop.time()
             if spec["out"] == "exc":
                 raise CErr(idx)
+            if spec["out"] == "retexc":
+                return RetExc(idx)
             return Val(idx)
 
         # one decorator object per case (a reusable preset), applied to the function under test and to a bystander
@@ -150,8 +161,8 @@ def execute(case, inject):
                         r = await fn(c["key"])
                 else:
                     r = await fn(c["key"])
-                obs["results"][i] = ("val", r.inv if isinstance(r, Val) else repr(r), loop.time())
-            except CErr as exc:
+                obs["results"][i] = ("val", r.inv if isinstance(r, (Val, RetExc)) else repr(r), loop.time())
+            except (CErr, RetExc) as exc:
                 obs["results"][i] = ("err", exc.args[0], loop.time())
             except asyncio.CancelledError:
                 obs["results"][i] = ("cancelled", None, loop.time())
@@ -335,7 +346,7 @@ def strategy(tier):
         limit = draw(st.sampled_from([1, 1, 2]))
         ninv = draw(st.integers(1, 3))
         invs = [
-            {"dur": draw(st.sampled_from([0, 0.5, 1, 2, 3])), "out": draw(st.sampled_from(["value", "value", "exc"]))}
+            {"dur": draw(st.sampled_from([0, 0.5, 1, 2, 3])), "out": draw(st.sampled_from(["value", "value", "exc", "retexc"]))}
             for _ in range(ninv)
         ]
         exp = draw(st.sampled_from([None, None, 0.5, 1, 1.5]))
